@@ -208,15 +208,44 @@ pub fn ec_params(rng: &mut Rng) -> Vec<u8> {
         }
         _ => {
             v.push(3);
-            put_u16(&mut v, rng.u16() as u64);
+            put_u16(&mut v, named_group(rng) as u64);
         }
     }
     v
 }
 
+/// registry-meaningful named groups (NIST, brainpool, x25519/x448, FFDHE, GREASE) or any value
+pub fn named_group(rng: &mut Rng) -> u16 {
+    if rng.chance(3, 4) {
+        *rng.pick(&[1u16, 19, 21, 22, 23, 24, 25, 26, 27, 28, 29, 30, 31, 32, 33, 256, 257, 260, 0x0a0a, 0xff01, 0xff02])
+    } else {
+        rng.u16()
+    }
+}
+
 pub fn ecdh_params(rng: &mut Rng) -> Vec<u8> {
     let mut v = ec_params(rng);
-    vec8(&mut v, &blob(rng, 70));
+    // public points as real stacks send them: 0x04 || x || y (uncompressed), compressed, raw x25519,
+    // with lengths at and around the field sizes
+    let point = if rng.chance(2, 3) {
+        let n = *rng.pick(&[20usize, 24, 28, 32, 48, 56, 64, 66]);
+        let len = match rng.below(6) {
+            0 => 2 * n + 1,
+            1 => 2 * n,
+            2 => 2 * n + 2,
+            3 => n + 1,
+            4 => n,
+            _ => 1,
+        };
+        let mut p = rng.bytes(len.min(255));
+        if !p.is_empty() && rng.chance(3, 4) {
+            p[0] = *rng.pick(&[4u8, 4, 2, 3]);
+        }
+        p
+    } else {
+        blob(rng, 70)
+    };
+    vec8(&mut v, &point);
     v
 }
 
